@@ -503,6 +503,19 @@ impl<'a, Input: InputIndexer> MatchAttempter<'a, Input> {
             // We always have a single Exhausted instruction backstopping our stack,
             // so we do not need to check for empty bts.
             debug_assert!(!self.bts.is_empty(), "Backtrack stack should not be empty");
+            #[cfg(feature = "verif")]
+            {
+                let kind = match self.bts.last() {
+                    None | Some(BacktrackInsn::Exhausted) => 0,
+                    Some(BacktrackInsn::SetPosition { .. }) => 1,
+                    Some(BacktrackInsn::SetLoopData { .. }) => 2,
+                    Some(BacktrackInsn::SetCaptureGroup { .. }) => 3,
+                    Some(BacktrackInsn::EnterNonGreedyLoop { .. }) => 4,
+                    Some(BacktrackInsn::GreedyLoop1Char { .. }) => 5,
+                    Some(BacktrackInsn::NonGreedyLoop1Char { .. }) => 6,
+                };
+                crate::verif::tick_bt_pop(kind, self.bts.len());
+            }
             let bt = match self.bts.last_mut() {
                 Some(bt) => bt,
                 None => rs_unreachable!("BT stack should never be empty"),
@@ -656,6 +669,8 @@ impl<'a, Input: InputIndexer> MatchAttempter<'a, Input> {
                     };
                 }
 
+                #[cfg(feature = "verif")]
+                crate::verif::tick_bt_insn(re.insns.iat(ip), Dir::FORWARD, self.bts.len());
                 match re.insns.iat(ip) {
                     &Insn::Char(c) => {
                         let m = match <<Input as InputIndexer>::Element as ElementType>::try_from(c)
